@@ -1311,6 +1311,8 @@ class PX:
             if not (-(1 << (bits - 1)) <= v < (1 << (bits - 1)) if signed else 0 <= v < (1 << bits)):
                 raise Exc("ValueError", (v,), origin=text)
             return ZInt(v, bits, signed)
+        if isinstance(fval, TypeRef) and int_type_of(fval) and len(args) == 1 and isinstance(args[0], Sym) and not kw:
+            return Sym(f"{fval.short}({args[0].tag})")
         if isinstance(fval, TypeRef):
             short = fval.short
             if short in self.hier.parent or short.endswith(("Error", "Exception")):
